@@ -65,6 +65,33 @@ type runner struct {
 	leases  map[int]clientv3.LeaseID
 	seen    map[clientv3.LeaseID]bool
 	revoked map[int]time.Time
+	unlocked  map[int]bool
+	perturbed bool // etcd: a holder's lease expired although the script did not revoke it (machine stall)
+}
+
+// checkLeases notices an unscripted lease loss of a client that should still hold the lock
+func (r *runner) checkLeases() {
+	if r.cli == nil {
+		return
+	}
+	for c := range r.ctxs {
+		if r.unlocked[c] {
+			continue
+		}
+		if _, ok := r.revoked[c]; ok {
+			continue
+		}
+		id, ok := r.leases[c]
+		if !ok {
+			continue
+		}
+		ctx, cancel := context.WithTimeout(context.Background(), 2*time.Second)
+		resp, err := r.cli.TimeToLive(ctx, id)
+		cancel()
+		if err == nil && resp.TTL <= 0 {
+			r.perturbed = true
+		}
+	}
 }
 
 func (r *runner) get(c int) (lock.DistributedLock, error) {
@@ -247,7 +274,12 @@ func (r *runner) run() {
 	slow := []bool{}
 	kind, msg := hx.Guard(60*time.Second, func() {
 		for _, c := range r.k.Cmds {
+			r.checkLeases()
 			x, s := r.exec(c)
+			if c.Op == "unlock" {
+				r.unlocked[c.C] = true
+			}
+			r.checkLeases()
 			if r.mini != nil && x == "timeout" {
 				// redislock reports its wait deadline as ErrNotObtained or, when the retry timer and
 				// the deadline fire together, as the context error of the last SET NX: same outcome
@@ -258,6 +290,9 @@ func (r *runner) run() {
 		}
 	})
 	r.k.Impl = map[string]any{"res": res, "slow": slow}
+	if r.perturbed {
+		r.k.Impl["perturbed"] = true
+	}
 	if kind != "" {
 		r.k.Impl[kind] = msg
 	}
@@ -282,7 +317,7 @@ func (r *runner) run() {
 func gen(r *hx.Rng, backend string, loss bool, allowSlow bool) *kase {
 	k := &kase{Backend: backend, TTL: 1000, Cmds: []cmd{}}
 	if backend == "etcd" {
-		k.TTL = hx.Pick(r, 2000, 3000)
+		k.TTL = hx.Pick(r, 3000, 4000)
 	} else {
 		k.TTL = hx.Pick(r, 1000, 1000, 2000)
 	}
@@ -535,25 +570,33 @@ func TestGen(t *testing.T) {
 		go func(i int, k *kase) {
 			defer wg.Done()
 			defer func() { <-sem }()
-			rn := &runner{k: k, key: fmt.Sprintf("k%d_%d", seed, i), locks: map[int]lock.DistributedLock{}, ctxs: map[int]context.Context{},
-				pending: map[int]chan asyncRes{}, leases: map[int]clientv3.LeaseID{}, seen: map[clientv3.LeaseID]bool{}, revoked: map[int]time.Time{}}
-			if k.Backend == "redis" {
-				m, err := miniredis.Run()
-				if err != nil {
-					k.Impl = map[string]any{"setup": err.Error()}
+			for attempt := 0; attempt < 3; attempt++ {
+				rn := &runner{k: k, key: fmt.Sprintf("k%d_%d_%d", seed, i, attempt), locks: map[int]lock.DistributedLock{}, ctxs: map[int]context.Context{},
+					pending: map[int]chan asyncRes{}, leases: map[int]clientv3.LeaseID{}, seen: map[clientv3.LeaseID]bool{}, revoked: map[int]time.Time{},
+					unlocked: map[int]bool{}}
+				if k.Backend == "redis" {
+					m, err := miniredis.Run()
+					if err != nil {
+						k.Impl = map[string]any{"setup": err.Error()}
+						return
+					}
+					st, err := redisstore.New(types.Config{MaxConcurrency: 10, Store: types.Redis, Redis: types.RedisConfig{Addr: m.Addr(), LockPrefix: "/lock"}}, t)
+					if err != nil {
+						m.Close()
+						k.Impl = map[string]any{"setup": err.Error()}
+						return
+					}
+					rn.mini, rn.mk = m, st.CreateLock
+					rn.run()
+					m.Close()
 					return
 				}
-				defer m.Close()
-				st, err := redisstore.New(types.Config{MaxConcurrency: 10, Store: types.Redis, Redis: types.RedisConfig{Addr: m.Addr(), LockPrefix: "/lock"}}, t)
-				if err != nil {
-					k.Impl = map[string]any{"setup": err.Error()}
-					return
-				}
-				rn.mini, rn.mk = m, st.CreateLock
-			} else {
 				rn.cli, rn.mk = ecli, etcd.CreateLock
+				rn.run()
+				if !rn.perturbed {
+					return
+				}
 			}
-			rn.run()
 		}(i, k)
 	}
 	wg.Wait()
